@@ -286,6 +286,9 @@ class IMAPConnection:
         if isinstance(exc, CancelledError):
             resp = ResponseBye(b'Server has closed the connection.',
                                ResponseCode.of(b'UNAVAILABLE'))
+        elif isinstance(exc, (ConnectionError, EOFError)):
+            # the client went away in the middle of a command, no bug
+            resp = ResponseBye(b'Connection closed by the client.')
         else:
             resp = ResponseBye(b'Unhandled server error.',
                                ResponseCode.of(b'SERVERBUG'))
